@@ -360,13 +360,16 @@ func (s *session) ciscoClass(line string) string {
 
 const bel = "\x07"
 
-func bannerText(kind string) string {
+func bannerText(kind string, hh ...bool) string {
 	msg := "SHUTDOWN in 0:02:00"
 	switch kind {
 	case "1:00":
 		msg = "SHUTDOWN in 0:01:00"
 	case "aborted":
 		msg = "SHUTDOWN ABORTED"
+	}
+	if len(hh) > 0 && hh[0] {
+		msg = strings.Replace(msg, " in 0:", " in 00:", 1)
 	}
 	return "\r\n\r\n\r\n" + bel + "***\r\n*** --- " + msg + " ---\r\n***\r\n"
 }
@@ -402,7 +405,7 @@ func (s *session) ciscoReply(line, output string) {
 		s.w("%s\r\n%s%s", line, output, s.prompt())
 		return
 	}
-	bt := bannerText(b.Kind)
+	bt := bannerText(b.Kind, b.HH)
 	p := s.prompt()
 	switch {
 	case b.Form == "before-own-prompt":
@@ -455,7 +458,7 @@ func (s *session) ciscoReply(line, output string) {
 func (s *session) ciscoReplyMode(line, output string, change func()) {
 	if b := s.bannerAt(); b != nil && s.spec.Type == "ios" && s.reload == "pending" && b.Kind != "aborted" &&
 		b.Form == "before-own-prompt" {
-		s.writeChunked(bannerText(b.Kind)+"\r\n"+s.prompt(), b.Chunk)
+		s.writeChunked(bannerText(b.Kind, b.HH)+"\r\n"+s.prompt(), b.Chunk)
 		if b.Chunk == "prompt-delayed" {
 			s.flush()
 			time.Sleep(15 * time.Millisecond)
